@@ -7,6 +7,14 @@ Property theorems only.  The model (`Sql.lex`, `Sql.derivs`) is hand-written; `S
 assembled from tables regenerated from /repo on every run, so the two `decide` obligations below are
 re-checked against the regexes and dictionaries the source contains *now*.
 -/
+/-!
+## Hypotheses audit (C01)
+No theorem of this file restricts the input: `lex_total_lossless`, `lex_error_single`, `lex_keeps_bom`, `lex_bom_first_token` hold for every
+text (any length, any code points including NUL, controls, lone surrogates, U+FEFF).  The only hypotheses are the table obligations
+(`rules_minW_actions`, `no_error_type`, `unbounded_rep_bodies_non_nullable`), discharged by evaluation over the regenerated tables;
+`lex_zero_width_crashes` shows the first one is needed (a nullable rule crashes the scan loop with ValueError).
+-/
+
 namespace Sql.C01
 
 /-- table obligation: every rule of the generated table has minimal width ≥ 1 (so no zero-width match
